@@ -2,6 +2,7 @@ package wh
 
 import (
 	"crypto/sha256"
+	"encoding/base64"
 	"fmt"
 	"strings"
 	"sync"
@@ -32,6 +33,9 @@ var Shapes = []string{"plain", "ext", "junk1", "otherlog", "stale-own-valid", "s
 //	plain             only the log's signature
 //	ext               two extension lines
 //	bigextK           K KiB (and a little more) of extension lines
+//	padK              the submitted note is exactly K bytes long
+//	sizepad[-ext]     size written with a leading zero (parses to the same size)
+//	looseb64          root in base64 with non-zero padding bits (decodes to the same hash)
 //	junkJ             J signature lines by unknown keys appended
 //	otherlog          an additional valid signature by the other log key
 //	stale-own-valid   carries an older valid cosignature/v1 + legacy signature of the witness
@@ -60,9 +64,52 @@ func (g *CPGen) Get(l LogCfg, b *uni.Branch, n int, shape string) ([]byte, Meta)
 		}
 	}
 	text := uni.Body(l.Origin, uint64(n), b.Root(n), ext...)
+	switch shape {
+	case "sizepad", "sizepad-ext":
+		// The size written with a leading zero: not what the repository's
+		// own writer produces, but what its parser (strconv.ParseUint) reads
+		// as the same size - and what the log signed.
+		if shape == "sizepad-ext" {
+			ext = []string{"an extension line"}
+		}
+		text = fmt.Sprintf("%s\n0%d\n%s\n", l.Origin, n, base64.StdEncoding.EncodeToString(b.Root(n)))
+		for _, e := range ext {
+			text += e + "\n"
+		}
+	case "looseb64":
+		// Non-zero padding bits in the root's base64: decodes (non-strict
+		// StdEncoding) to the same 32 bytes.
+		enc := []byte(base64.StdEncoding.EncodeToString(b.Root(n)))
+		const alpha = "ABCDEFGHIJKLMNOPQRSTUVWXYZabcdefghijklmnopqrstuvwxyz0123456789+/"
+		i := strings.IndexByte(alpha, enc[len(enc)-2])
+		enc[len(enc)-2] = alpha[i|1]
+		if alpha[i|1] == alpha[i] {
+			enc[len(enc)-2] = alpha[i|2]
+		}
+		text = fmt.Sprintf("%s\n%d\n%s\n", l.Origin, n, enc)
+	}
+	if strings.HasPrefix(shape, "pad") {
+		// The submitted note is EXACTLY K bytes long (one extension line of
+		// filler): byte-length boundaries (buffer sizes, request caps) sit
+		// between what is submitted and what is stored once cosigned.
+		var k int
+		fmt.Sscanf(shape[3:], "%d", &k)
+		probe := u.Sign(uni.Body(l.Origin, uint64(n), b.Root(n), "pad "), l.Key.Signer)
+		if k < len(probe) {
+			panic("pad shape smaller than the minimal note")
+		}
+		text = uni.Body(l.Origin, uint64(n), b.Root(n), "pad "+strings.Repeat("p", k-len(probe)))
+	}
 	cp := u.Sign(text, l.Key.Signer)
+	if strings.HasPrefix(shape, "pad") {
+		var k int
+		fmt.Sscanf(shape[3:], "%d", &k)
+		if len(cp) != k {
+			panic(fmt.Sprintf("pad shape: %d bytes, want %d", len(cp), k))
+		}
+	}
 	switch {
-	case shape == "plain" || shape == "ext" || strings.HasPrefix(shape, "bigext"):
+	case shape == "plain" || shape == "ext" || strings.HasPrefix(shape, "pad") || strings.HasPrefix(shape, "bigext") || strings.HasPrefix(shape, "sizepad") || shape == "looseb64":
 	case len(shape) > 4 && shape[:4] == "junk":
 		var j int
 		fmt.Sscanf(shape[4:], "%d", &j)
